@@ -108,6 +108,8 @@ def parse_sidecar(path):
                 cur.attrs.append(rest)
             elif kw == 'assume_body':
                 cur.trusted = True
+            elif kw == 'variant':
+                cur.extra['variant'] = rest
             elif kw == 'use':
                 cur.use_contract = rest
             elif kw == 'requires':
@@ -500,6 +502,9 @@ def build(out_path, only=None):
     by_mod = {}
     hoisted_all = []
     fn_outs = {}
+    variant = os.environ.get('VERIF_VARIANT', 'main')
+    want = {'main': 'assumed', 'hdrproof': 'proof'}[variant]
+    specs = [sp for sp in specs if sp.extra.get('variant') in (None, want)]
     for sp in specs:
         if only and sp.key not in only and sp.name not in only:
             continue
@@ -581,6 +586,12 @@ def assemble(out_path, only=None):
         A(strip_doc_comments(get_fn(lib, f)), ext)
     for f in ('deinit_slice_mut', 'assume_init_slice'):
         A(strip_doc_comments(get_fn(lib, f)), ext)
+    # the two cast wrappers (raw-pointer casts): external real text, contract assumed in Verus, Kani leaf on the real text
+    for scope in (r"^impl<'h, 'b> Request<'h, 'b>", r"^impl<'h, 'b> Response<'h, 'b>"):
+        hdr = re.search(scope, lib, re.M)
+        A(lib[hdr.start():lib.index('{', hdr.start()) + 1], ext)
+        A(strip_doc_comments(get_fn(lib, 'parse_with_config', scope)), ext)
+        A('}', ext)
 
     def fns_in(module):
         o = Out()
@@ -661,11 +672,14 @@ def assemble(out_path, only=None):
       '#[derive(PartialEq, Eq)]\npub struct InvalidChunkSize;', tmeta)
     A('pub type Result<T> = result::Result<Status<T>, Error>;', tmeta)
     A(type_item(lib, r'^pub enum Status<T>'), tmeta)
-    A(type_item(lib, r'^pub struct ParserConfig\b'), tmeta)
+    # D3: field / type visibility widened to `pub` in the copies of the two option records (no run-time meaning), so that
+    # the contracts of PUBLIC entry points may mention the options
+    pubfields = lambda t: re.sub(r'^(\s+)(\w+: bool,)', r'\1pub \2', t, flags=re.M)
+    A(pubfields(type_item(lib, r'^pub struct ParserConfig\b')), tmeta)
     A(type_item(lib, r'^pub struct Request<'), tmeta)
     A(type_item(lib, r'^pub struct Response<'), tmeta)
     A(type_item(lib, r'^pub struct Header<'), tmeta)
-    A(type_item(lib, r'^struct HeaderParserConfig\b'), tmeta)
+    A(re.sub(r'^struct HeaderParserConfig', 'pub struct HeaderParserConfig', pubfields(type_item(lib, r'^struct HeaderParserConfig\b')), flags=re.M), tmeta)
     # hoisted fn-local items (R4 / R6)
     for key, h in hoisted:
         if h[0] == 'const':
